@@ -694,7 +694,7 @@ func CheckFixedPointLiteral(
 		if !fixedpoint.CheckRange(
 			expression.Negative,
 			expression.UnsignedInteger,
-			expression.Fractional,
+			fixedpoint.ScaleFractional(expression.Fractional, expression.Scale, scale),
 			minInt,
 			minFractional,
 			maxInt,
